@@ -234,8 +234,22 @@ void run_stage_case(const Case& c, Result& r)
         r.violation(stage + ":shape-depends-on-threads", "result shape differs");
         return;
     }
-    double scale = std::max(1e-300, R1.cwiseAbs().maxCoeff());
-    double dev = (Rp - R1).cwiseAbs().maxCoeff() / scale;
+    // entries at the "infinite" sentinel (unreachable pairs) must be bitwise equal; the others agree relative to the largest finite one
+    double scale = 1e-300, dev = 0;
+    for (int i = 0; i < R1.size(); ++i)
+        if (std::fabs(R1.data()[i]) < 1e300)
+            scale = std::max(scale, std::fabs(R1.data()[i]));
+    for (int i = 0; i < R1.size(); ++i)
+    {
+        double a = R1.data()[i], b = Rp.data()[i];
+        if (std::fabs(a) >= 1e300 || std::fabs(b) >= 1e300 || !std::isfinite(a) || !std::isfinite(b))
+        {
+            if (!(a == b) && !(std::isnan(a) && std::isnan(b)))
+                dev = std::max(dev, 1.0);
+        }
+        else
+            dev = std::max(dev, std::fabs(a - b) / scale);
+    }
     r.maxnum("dev", dev);
     if (!(dev <= 1e-10))
         r.violation(sf("%s:%s:result-depends-on-thread-count", stage.c_str(), BACKEND),
